@@ -169,7 +169,7 @@ var c11Patterns = []string{
 	// share one node); surrogates, which have no string form
 	"^(?:[ab]x){2}$", "^(?:x[ab]){2}y$", "^(?:(?:ab|c)-){2}$", "^(?:[ab]x){3}$", "^(?:a|b){2}$", "^([ab]x){2}(c|d)$", "^(?:x[ab]y){2,2}$", "^(?:[ab]){2}[cd]$",
 	"^[\\x{D800}-\\x{D801}]$", "^(\\x{D800}|ab)$", "^a[\\x{DFFF}b]$", "^\\x{D800}$", "^[\\x{D7FF}-\\x{D800}]$", "^[\\x{DFFF}-\\x{E000}]$", "^a\\x{DC00}b$", "^[\\x{10FFFF}]$",
-	"^[éè]$", "^(ü|ö)$", "^[\\x{80}-\\x{82}]$", "^[\\x{FE}-\\x{101}]$", "^a[ÿĀ]$", "^[é]$", "^a$$", "^^a$", "^a^$", "^$a$", "^a$b$", "^(a$)$",
+	"^(?i:foo|bar)$", "(?i)^(?:foo|bar)$", "^((?i)foo|bar)$", "^(?:(?i)foo|bar)$", "^x(?i:ab|cd)y$", "^(?i:a|b)c$", "^(foo|(?i:bar))$", "^[éè]$", "^(ü|ö)$", "^[\\x{80}-\\x{82}]$", "^[\\x{FE}-\\x{101}]$", "^a[ÿĀ]$", "^[é]$", "^a$$", "^^a$", "^a^$", "^$a$", "^a$b$", "^(a$)$",
 }
 
 func c11Exact(o *out, p string) {
